@@ -329,8 +329,9 @@ def run(ctx):
         "Kernel.segRel / Kernel.locateInPolygon (shared exact predicates, property C07) decide contact and containment inside the specification",
         "the model of the branch-and-bound loop is STR.nnLoop (single query item against one tree); the dual-tree traversal of "
         "TemplateSTRtreeDistance is an instance of the same abstract search but is tied only through its results",
-        "inputs: grid coordinates under lattice symmetries, integer translation (<= 2e6) and scaling by 2^k, polygons valid by construction; "
-        "arbitrary full-precision doubles are not generated",
+        "inputs: grid coordinates under lattice symmetries, integer translation (<= 2e6) and scaling by 2^k (stream distance), and the same shapes under "
+        "a similarity with arbitrary double coefficients (stream distance-fp); polygons valid by construction; near-degenerate full-precision "
+        "contacts (vertex 1e-16 off an edge) are not generated",
         "tolerances: 1e-12 relative on distances (|r^2-d^2| <= 4e-12 d^2, exact zero test); computed nearest points / Hausdorff feet may be off by max|coordinate|*2^-40",
     ])
     proved = ctx.prove(PROPS, extra_targets=(DRV,))
